@@ -24,6 +24,7 @@ func constStr(m *Machine, v Value, what string) string {
 func (m *Machine) newNondet(tag, kind string, s sym.Sort) *sym.Term {
 	t := sym.Var(m.freshName(tag), s)
 	m.nondets = append(m.nondets, nondetRec{Tag: tag, Kind: kind, T: t})
+	m.sol.Declare(t)
 	return t
 }
 
@@ -187,6 +188,14 @@ func (e *Engine) intrinsic(name string) stubFn {
 				out = append(out, sym.Str(f.Name()))
 			}
 			return out
+		}
+	case "vrf_strsuffix":
+		return func(m *Machine, c *frame, fn *ssa.Function, a []Value) Value {
+			return sym.StrSuffixOf(m.term(a[1]), m.term(a[0]))
+		}
+	case "vrf_strprefix":
+		return func(m *Machine, c *frame, fn *ssa.Function, a []Value) Value {
+			return sym.StrPrefixOf(m.term(a[1]), m.term(a[0]))
 		}
 	case "vrf_now":
 		return func(m *Machine, c *frame, fn *ssa.Function, a []Value) Value { return m.nowTerm() }
